@@ -105,4 +105,24 @@ theorem freshOf_length (next : Nat) (frags : List RawFrag) : (freshOf next frags
   | nil => rfl
   | cons f fs ih => simp [freshOf, ih]
 
+/-! ### the rows the model's Update arm numbers -/
+
+theorem rids_inserted_range (frags : List Frag) (v next k : Nat) (rows : List Row) :
+    (insertedRowsOf frags v next k rows).map (·.rid) = List.range' next rows.length := by
+  induction rows generalizing next with
+  | nil => rfl
+  | cons s ss ih =>
+    simp only [insertedRowsOf, List.map_cons, List.length_cons, movedRow, ih (next + 1)]
+    simp [List.range'_succ]
+
+theorem rids_newRows (L : Manifest) (T : Txn) :
+    (newRows L T).map (·.rid) = T.moved.map (·.1) ++ List.range' L.nextRowId T.fresh.length := by
+  unfold newRows
+  rw [List.map_append, rids_inserted_range, List.map_map]
+  congr 1
+
+theorem newRows_length (L : Manifest) (T : Txn) : (newRows L T).length = T.moved.length + T.fresh.length := by
+  have := congrArg List.length (rids_newRows L T)
+  simpa using this
+
 end LanceModel.C18
